@@ -19,6 +19,9 @@ Upd == /\ More /\ Ev.op = "update"
                     ELSE TRUE
        /\ Adv
 Rst == /\ More /\ Ev.op = "reset" /\ UserReset /\ Chk("since", since', Ev.since) /\ Chk("state", st', Ev.state) /\ Adv
-Next == Upd \/ Rst
+(* a call refused by input validation (two rows, a wrong number of columns): nothing is counted, nothing moves - the scoring schedule included *)
+Bad == /\ More /\ Ev.op = "bad" /\ UNCHANGED pcavars
+       /\ Chk("total", total, Ev.total) /\ Chk("since", since, Ev.since) /\ Chk("state", st, Ev.state) /\ Adv
+Next == Upd \/ Rst \/ Bad
 Spec == Init /\ [][Next]_tvars
 =============================================================================
